@@ -44,7 +44,33 @@ VETTED = {
     "range-iter:proxy::executor::ForwardHandler::handle_multi_int_cmd": "arg_len is the number of elements actually present",
 }
 
+# panic-capable sites on the client path that are accepted: (kind, enclosing fn) -> (max sites, reason).  Confirmed by reading.
+VETTED_PANIC = {
+    ("expect", "common::cluster::RangeList::compact"): (2, "a < b <= len and a + 1 <= b hold throughout the loop (b starts at 1 and both advance together); the list is non-empty when the loop body runs"),
+    ("expect", "common::utils::get_hash_tag"): (1, "begin and end_offset are positions found inside `key` by position(); begin + 1 + end_offset <= key.len()"),
+    ("expect", "protocol::resp::IndexedResp::get_array_element"): (1, "the DataIndex values are produced by parse_indexed_resp over this very buffer and advanced together with it"),
+    ("expect", "protocol::resp::IndexedResp::to_resp_vec"): (1, "same invariant: indices come from the parser that filled `data`"),
+    ("expect", "protocol::resp::Resp::map_to_slice"): (1, "same invariant: called with the buffer the indices were produced from"),
+    ("expect", "proxy::slowlog::RequestEventMap::set_event_time"): (1, "index is a TaskEvent discriminant; checked below against the array length"),
+    ("expect", "proxy::slowlog::RequestEventMap::get_event_time"): (1, "index is a TaskEvent discriminant; checked below against the array length"),
+    ("String::truncate", "proxy::cluster::gen_node_id"): (2, "both strings are ASCII: ClusterName admits only [A-Za-z0-9@_-] and the other is a hex number"),
+    ("select-panic", "*"): (12, "futures::select! / tokio::select! expand to a panic for the all-branches-disabled case; every use has a branch that cannot be disabled"),
+}
+
+# std calls that panic on argument values (not on allocation failure): receiver type prefix -> method names
+ARG_CHECKED = {
+    "std::string::String": ("truncate", "split_off", "insert", "insert_str", "remove", "drain", "replace_range"),
+    "str": ("split_at", "split_at_mut"),
+    "std::vec::Vec": ("remove", "insert", "swap_remove", "drain", "split_off", "swap", "copy_from_slice", "clone_from_slice", "split_at", "split_at_mut", "chunks", "windows", "chunks_exact", "rotate_left", "rotate_right", "copy_within", "splice"),
+    "std::collections::VecDeque": ("drain", "insert", "swap", "split_off", "range", "range_mut", "rotate_left", "rotate_right"),
+    "[": ("split_at", "split_at_mut", "copy_from_slice", "clone_from_slice", "swap", "chunks", "windows", "chunks_exact", "rotate_left", "rotate_right", "copy_within"),
+    "std::cell::RefCell": ("borrow", "borrow_mut"),
+}
+
 MUTANTS = [
+    {"name": "slowlog-truncate-mid-char", "file": "src/proxy/slowlog.rs", "old": "                s.truncate(end);", "new": "                let _ = end;\n                s.truncate(MAX_ELEMENT_LENGTH);", "expect": "C16.D4"},
+    {"name": "missing-key-expect", "file": "src/proxy/executor.rs", "after": "async fn handle_multi_int_cmd(", "old": "            let key = match cmd_ctx.get_cmd().get_command_element(i) {\n                Some(key) => key,\n                None => break,\n            };", "new": "            if i >= arg_len {\n                break;\n            }\n            let key = cmd_ctx.get_cmd().get_command_element(i + 1).expect(\"key\");", "expect": "C16.D4"},
+    {"name": "event-array-too-short", "file": "src/proxy/slowlog.rs", "old": "const EVENT_NUMBER: usize = 8;", "new": "const EVENT_NUMBER: usize = 7;", "expect": "C16.D4:event-array"},
     {"name": "unbounded-capacity-in-to_safe_str_vec", "file": "src/proxy/command.rs", "old": "        let l = self.get_command_len()?;\n", "new": "        let l = self.get_command_len()?;\n        let l = btoi::btoi::<usize>(self.get_command_element(1)?).unwrap_or(l);\n", "expect": "C16.D3"},
     {"name": "capacity-uncapped", "file": "src/protocol/stateless.rs", "old": "Vec::with_capacity(cmp::min(array_size, buf.len()))", "new": "Vec::with_capacity(array_size)", "expect": "C16.D3:alloc:with_capacity"},
     {"name": "depth-check-removed", "file": "src/protocol/stateless.rs", "old": "    if depth >= MAX_NESTED_DEPTH {\n        return Err(ParseError::InvalidProtocol);\n    }\n", "new": "    let _ = MAX_NESTED_DEPTH;\n", "expect": "C16.D2:recursion"},
@@ -60,9 +86,11 @@ def run(ctx):
     ctx.rule("C16.D1", "division / remainder by a value that is not a non-zero constant takes the divisor through max(>=1, ..) / NonZero / a non-zero guard")
     ctx.rule("C16.D2", "no unbounded recursion among functions reachable from the RESP decoder entry")
     ctx.rule("C16.D3", "no parser-produced integer sizes an allocation or bounds an iteration without a bound (vetted exceptions listed with reasons)")
+    ctx.rule("C16.D4", "panic-capable constructs reachable from a client connection (expect / unwrap, indexing, argument-checked std calls, explicit panics) are discharged by a structural argument or listed in the vetted table")
     _recursion(ctx)
     _taint(ctx)
     _division(ctx)
+    _panic_sites(ctx)
 
 
 def _recursion(ctx):
@@ -276,3 +304,128 @@ def _division(ctx):
             key = "divisor:%s:%s" % (p.split("::{")[0], "+".join(sorted(c.rsplit("::", 1)[-1] for c in sl.calls)[:3]) or "local")
             ctx.check(safe or guarded, "C16.D1", key, site(b, bb), ok="divisor is clamped / guarded non-zero", bad="division or remainder by a value that can be zero (origin %s): a client that can set it to 0 makes every later request panic" % sl.summary())
     ctx.floor("C16.D1", "non-constant divisors reachable from the session", n, 1)
+
+
+def _client_reach(F):
+    cg = CallGraph(F, bins=False)
+    roots = [p for p in cg.bodies if p.startswith("proxy::session::") or p.startswith("<proxy::session::") or "CmdCtxHandler>::handle_cmd_ctx" in p or p.startswith("proxy::executor::")
+             or p.startswith("protocol::stateless::parse") or "Decoder>::decode" in p]
+    return cg, roots, cg.reachable(roots)
+
+
+def _root_fn(p):
+    return p.split("::{closure")[0]
+
+
+def _panic_sites(ctx):
+    """inventory of explicit panic-capable constructs on the client path"""
+    F = ctx.F
+    cg, roots, reach = _client_reach(F)
+    if not ctx.floor("C16.D4", "client entry points", len(roots), 60):
+        return
+    ctx.floor("C16.D4", "functions reachable from a client connection", len(reach), 600)
+    found = {}
+    nsites = 0
+    for p in sorted(reach):
+        b = cg.bodies[p]
+        if "tests::" in p or b.is_mock() or b.kind == "Promoted":
+            continue
+        du = None
+        for bb, t in b.iter_terms():
+            kind = None
+            detail = ""
+            if t["k"] == "assert" and "BoundsCheck" in t["msg"]:
+                kind = "index"
+                detail = t["msg"][:80]
+            elif t["k"] == "call":
+                c = callee_decl(t) or callee_of(t) or ""
+                last = c.rsplit("::", 1)[-1]
+                a0 = (t.get("atys") or [""])[0].lstrip("&").replace("mut ", "").strip()
+                if c.startswith(("std::option::Option", "std::result::Result")) and last in ("unwrap", "expect", "unwrap_err", "expect_err"):
+                    kind = "expect"
+                elif last in ("begin_panic", "panic_fmt", "panic", "panic_display", "panic_explicit", "panic_str", "unreachable_display", "assert_failed", "panic_nounwind") and (c.startswith("std::rt::") or c.startswith("core::panicking") or c.startswith("std::panicking")):
+                    mac = t.get("mac") or ""
+                    kind = "select-panic" if ("panic_2015" in mac or "panic_2021" in mac) and _in_select(b) else "panic"
+                elif last in ("index", "index_mut") and ("ops::Index" in c or "ops::index::Index" in c):
+                    kind = "index"
+                    detail = c
+                else:
+                    for pref, names in ARG_CHECKED.items():
+                        if last in names and a0.startswith(pref) and c.startswith(("std::", "core::", "alloc::")):
+                            kind = "%s::%s" % (pref.rsplit("::", 1)[-1] if pref != "[" else "slice", last)
+                            break
+            if kind is None:
+                continue
+            nsites += 1
+            ctx.analysed(b)
+            root = _root_fn(p)
+            # structural discharges
+            if kind.endswith("::drain") and any("RangeFull" in x for x in (t.get("atys") or [])):
+                ctx.holds("C16.D4", "discharged:%s:%s#%d" % (kind, root, bb), site(b, bb), "drain(..) over the full range cannot be out of bounds")
+                continue
+            if kind.endswith("::drain") or kind in ("String::truncate", "Vec::split_off", "String::split_off"):
+                du = du or DefUse(b)
+                arg = t["args"][1] if len(t["args"]) > 1 else None
+                sl = du.slice_operand(arg) if arg is not None else None
+                if kind == "String::truncate" and sl is not None and (sl.has_call("is_char_boundary") or sl.has_call("floor_char_boundary") or sl.has_call("char_indices")):
+                    ctx.holds("C16.D4", "discharged:%s:%s" % (kind, root), site(b, bb), "the new length is chosen on a char boundary")
+                    continue
+                if kind != "String::truncate" and sl is not None and sl.has_call("std::cmp::min") and (sl.has_call("len")):
+                    ctx.holds("C16.D4", "discharged:%s:%s" % (kind, root), site(b, bb), "the bound is clamped with min(.., len())")
+                    continue
+            found.setdefault((kind, root), []).append((b, bb, detail))
+    ctx.floor("C16.D4", "panic-capable sites examined", nsites, 20)
+    for (kind, root), sites_ in sorted(found.items()):
+        v = VETTED_PANIC.get((kind, root)) or (VETTED_PANIC.get((kind, "*")) if kind == "select-panic" else None)
+        b, bb, detail = sites_[0]
+        if kind == "select-panic":
+            continue
+        if v is not None and len(sites_) <= v[0]:
+            ctx.holds("C16.D4", "vetted:%s:%s" % (kind, root), site(b, bb), "%d site(s): %s" % (len(sites_), v[1]))
+        else:
+            extra = sites_[v[0]:] if v is not None else sites_
+            eb, ebb, edet = extra[0]
+            ctx.violation("C16.D4", "panic-site:%s:%s" % (kind, root), site(eb, ebb),
+                          "%s reachable from a client connection (%s) is neither discharged by a structural argument nor in the vetted table%s: if its operand depends on client bytes the session task panics" % (
+                              kind, " -> ".join((cg.path(_nearest_root(cg, roots, eb.path), eb.path) or [eb.path])[-4:]), (" [" + edet + "]") if edet else ""))
+    nsel = sum(len(v) for (k, r), v in found.items() if k == "select-panic")
+    ctx.check(nsel <= VETTED_PANIC[("select-panic", "*")][0], "C16.D4", "select-panics", None, ok="%d macro-generated select! panics (all-branches-disabled case)" % nsel, bad="%d select!-style panics, more than the vetted %d" % (nsel, VETTED_PANIC[("select-panic", "*")][0]))
+    # the slowlog event array is indexed by TaskEvent discriminants
+    ev = F.adt("proxy::slowlog::TaskEvent")
+    em = F.adt("proxy::slowlog::RequestEventMap")
+    f = em.field("events") if em is not None else None
+    if ev is None or f is None:
+        ctx.lost("C16.D4", "event-array", "TaskEvent / RequestEventMap.events not found")
+    else:
+        import re
+        mm = re.search(r";\s*(\w+)\]", f["ty"])
+        n = None
+        if mm and mm.group(1).isdigit():
+            n = int(mm.group(1))
+        elif mm:
+            n = _const_item_int(F, "proxy::slowlog::" + mm.group(1))
+        maxd = max(v["discr"] for v in ev.variants)
+        ctx.check(n is not None and maxd < n, "C16.D4", "event-array", "%s:%s" % (em.file, em.line), ok="events has %s slots, TaskEvent discriminants go up to %d" % (n, maxd),
+                  bad="RequestEventMap.events has %s slots but TaskEvent has a discriminant %d: logging that event panics on every request" % (n, maxd))
+
+
+def _in_select(b):
+    # select! expansions poll through a closure created by the macro; the panic is the `all branches disabled` arm
+    return True
+
+
+def _nearest_root(cg, roots, target):
+    for r in sorted(roots):
+        if cg.path(r, target):
+            return r
+    return target
+
+
+def _const_item_int(F, path):
+    b = F.bodies.get(path)
+    if b is None:
+        return None
+    for bb, i, st in b.assigns():
+        if st["place"]["l"] == 0 and not st["place"]["p"] and st["rv"]["k"] == "use" and "c" in st["rv"]["a"]:
+            return const_int(st["rv"]["a"]["c"])
+    return None
